@@ -323,7 +323,12 @@ static void parseQuery(void *inFrame, lltd_iface_state *st, void *iface_ctx) {
     }
 
     uint16_t num_descs = (st->see_list_count > max_descs) ? (uint16_t)max_descs : (uint16_t)st->see_list_count;
-    respH->numDescs = lltd_htons(num_descs);
+    uint16_t desc_word = num_descs;
+    if (st->see_list_count > num_descs) {
+        /* More observations than fit: set the M bit and keep the rest for the next Query. */
+        desc_word |= 0x8000;
+    }
+    respH->numDescs = lltd_htons(desc_word);
     offset += sizeof(*respH);
 
     probe_t *node = st->see_list;
@@ -349,7 +354,17 @@ static void parseQuery(void *inFrame, lltd_iface_state *st, void *iface_ctx) {
     (void)lltd_port_send_frame(iface_ctx, buffer, offset);
     lltd_port_free(buffer);
 
-    lltd_state_clear_seen_probes(st);
+    /* Drop only what was reported; unreported observations wait for the next Query. */
+    uint16_t reported = (uint16_t)(num_descs - remaining);
+    while (reported > 0 && st->see_list != NULL) {
+        probe_t *next = (probe_t *)st->see_list->nextProbe;
+        lltd_port_free(st->see_list);
+        st->see_list = next;
+        if (st->see_list_count > 0) {
+            st->see_list_count--;
+        }
+        reported--;
+    }
 }
 
 static void sendLargeTlvResponse(lltd_iface_state *st,
